@@ -124,6 +124,7 @@ Section EncForgetsP.
   Lemma forgetsP_enc : SeekForgetsP (EncReader CHUNK TAG ks tagc S) Penc.
   Proof.
     intros s1 s2 p HP. cbn [EncReader sk]. unfold eseek, eseek_start.
+    destruct (_ <? p / CHUNK); cbn [snd fst is_ok]; [split; [reflexivity | discriminate]|].
     destruct (HS (e_in s1) (e_in s2) (notag2tag CHUNK TAG p / CTS CHUNK TAG * CTS CHUNK TAG) HP) as [Hr Hst].
     destruct (sk S (e_in s1) _) as [i1 r1]. destruct (sk S (e_in s2) _) as [i2 r2].
     cbn [fst snd] in Hr, Hst. subst r2.
